@@ -223,7 +223,11 @@ func c13FaceGen(r *vh.Rand, tier string, n int, emit func(any)) {
 						}
 					}
 				}
-				in.Ops = append(in.Ops, c13FaceOp{K: "coords", Coords: cs})
+				kind := "coords"
+				if r.Chance(40) { // the caller rewrites the slice it passed before, in place, and passes it again
+					kind = "coordsip"
+				}
+				in.Ops = append(in.Ops, c13FaceOp{K: kind, Coords: cs})
 			case k < 9:
 				in.Ops = append(in.Ops, c13FaceOp{K: "vars", Vars: c13GenVars(r, f)})
 			default:
@@ -266,16 +270,23 @@ func c13FaceRun(o *vh.Out, inAny any) {
 			return id
 		}
 		var px, py uint16
+		var lastCS []tables.Coord
 		for _, op := range in.Ops {
 			switch op.K {
-			case "coords":
+			case "coords", "coordsip":
 				var cs []tables.Coord
-				if op.Coords != nil {
+				if op.K == "coordsip" && lastCS != nil && len(lastCS) == len(op.Coords) {
+					cs = lastCS // same backing array as the slice the face may still hold
+					for i, c := range op.Coords {
+						cs[i] = tables.Coord(c)
+					}
+				} else if op.Coords != nil {
 					cs = make([]tables.Coord, len(op.Coords))
 					for i, c := range op.Coords {
 						cs[i] = tables.Coord(c)
 					}
 				}
+				lastCS = cs
 				face.SetCoords(cs)
 				ops = append(ops, vh.App("FaceCache.SetCoords Z Z", vh.Z(intern(face.Coords()))))
 				changes++
